@@ -225,3 +225,107 @@ Proof.
         destruct (New b Hb) as (Db & Hhb & _). assert (m' = b) by (apply Huq; try assumption; [apply Hfw, Hb | congruence]).
         subst b. congruence.
 Qed.
+
+Definition SQof (s : state) : tpk -> Z := fun k => seq_get k (g_seqs s).
+
+Lemma run_pp_tab c sA t p x m0 ls tab : c_idem c = true ->
+  places_ok (PE (g_epoch sA)) sA -> Forall (core tab) (flat sA) ->
+  upk (g_epoch sA) (t, p) m0 -> core tab m0 ->
+  Forall (upk (g_epoch sA) (t, p)) (pp_msgs (pr_st x)) -> Forall (core tab) (pp_msgs (pr_st x)) ->
+  tab_ok (g_epoch sA) (SQof sA) tab ->
+  let s' := run_pp c sA (t, p) x m0 ls in
+  g_panic s' = None -> g_epoch s' = g_epoch sA ->
+  (forall a b, In a (flat s') -> In b (flat s') -> is_data a = true -> is_data b = true -> m_id a = m_id b -> a = b) ->
+  exists tab', incl tab tab' /\ tab_ok (g_epoch s') (SQof s') tab' /\ Forall (core tab') (flat s').
+Proof.
+  intros Hi Hp Hf Hu0 Hc0 HuI HcI Ht s' Hnp He Huq.
+  destruct (run_pp_core c sA t p x m0 ls Hp Hu0 HuI) as [effs [n [Sn [Tx [Hcl [Hfw Hsh]]]]]]. fold s' in Tx, Hcl, Hfw, Hsh.
+  assert (Hsq : forall k, SQof s' k = SQof sA k + ks k t p n).
+  { intros k. unfold SQof. pose proof (f_equal fst Tx) as T1. pose proof (f_equal snd Tx) as T2. cbn [txn_of fst snd] in T1, T2.
+    assert (E1 : fst (txn_effs (txn_of sA) effs) = fst (txn_of sA)) by (rewrite <- T1; exact He).
+    rewrite T2, (txn_effs_same_epoch effs (txn_of sA) E1 k). cbn [txn_of snd]. rewrite (so_cs _ _ _ _ _ _ Sn k). reflexivity. }
+  destruct (tab_extend (g_epoch sA) (SQof sA) (SQof s') n t p tab (flat sA) (flat s') (m0 :: pp_msgs (pr_st x)) (newL effs)) as [T' C']; try assumption.
+  - constructor; assumption.
+  - constructor; assumption.
+  - apply Hfw, Hnp.
+  - apply (so_seq _ _ _ _ _ _ Sn).
+  - apply (so_ep _ _ _ _ _ _ Sn).
+  - rewrite Hsq. unfold ks. rewrite tpk_eqb_refl. reflexivity.
+  - intros k N. rewrite Hsq. unfold ks. apply tpk_eqb_neq in N. rewrite N. lia.
+  - exists (tab ++ map pairof (newL effs)). split; [apply incl_appl, incl_refl|]. rewrite He. split; assumption.
+Qed.
+
+Lemma pop_flat d s m s1 : pop d s = Some (m, s1) -> In m (flat s) /\ (forall a, In a (flat s1) -> In a (flat s)).
+Proof.
+  unfold pop. destruct (q_get d (g_q s)) as [|m0 r] eqn:E; [discriminate|]. intros H; injection H as <- <-.
+  assert (Hq : forall a, In a (m0 :: r) -> In a (flat s)).
+  { intros a Ha. apply in_flat. left. unfold fq. eapply in_q_get. rewrite E. exact Ha. }
+  split; [apply Hq; left; reflexivity|]. intros a Ha. apply in_flat in Ha. unfold fq, fp, fb, fr in Ha. cbn [set_q g_q g_pps g_bps g_rbs] in Ha.
+  destruct Ha as [Ha|Ha]; [|apply in_flat; right; exact Ha]. apply in_fq_set in Ha as [Ha|Ha]; [apply Hq; right; exact Ha | apply in_flat; left; exact Ha].
+Qed.
+
+Lemma forall_sub (R : msg -> Prop) (a b : list msg) : (forall x, In x a -> In x b) -> Forall R b -> Forall R a.
+Proof. intros Hs Hb. rewrite Forall_forall in *. intros x Hx. apply Hb, Hs, Hx. Qed.
+
+(* a partition-worker step that does not move the epoch extends the table *)
+Lemma core_step_cpp c s t p ls tab : c_idem c = true ->
+  places_ok (PE (g_epoch s)) s -> Forall (core tab) (flat s) -> tab_ok (g_epoch s) (SQof s) tab ->
+  let s' := step c s (CPp t p ls) in
+  g_epoch s' = g_epoch s ->
+  (forall a b, In a (flat s') -> In b (flat s') -> is_data a = true -> is_data b = true -> m_id a = m_id b -> a = b) ->
+  exists tab', incl tab tab' /\ tab_ok (g_epoch s') (SQof s') tab' /\ Forall (core tab') (flat s').
+Proof.
+  intros Hi Hp Hf Ht s' He Huq.
+  assert (Keep : forall s0, flat s0 = flat s -> g_epoch s0 = g_epoch s -> g_seqs s0 = g_seqs s ->
+                 exists tab', incl tab tab' /\ tab_ok (g_epoch s0) (SQof s0) tab' /\ Forall (core tab') (flat s0)).
+  { intros s0 E1 E2 E3. exists tab. unfold SQof. rewrite E1, E2, E3. split; [apply incl_refl | split; assumption]. }
+  subst s'. unfold step in *. destruct (g_panic s) eqn:Eps; [apply Keep; reflexivity|].
+  destruct (g_panic (raw_step c s (CPp t p ls))) eqn:Epr; [apply Keep; reflexivity|].
+  cbn [raw_step] in *. destruct (pop (DPart t p) s) as [[m0 s1]|] eqn:Epop; [|apply Keep; reflexivity].
+  destruct (pop_places _ _ _ _ _ Hp Epop) as [Hm0 [Hp1 [E1 E2]]]. destruct (pop_flat _ _ _ _ Epop) as [Hin0 Hsub].
+  cbn [PE PQ] in Hm0. rewrite Forall_forall in Hf.
+  assert (Hc0 : core tab m0) by (apply Hf, Hin0).
+  assert (Hf1 : Forall (core tab) (flat s1)) by (rewrite Forall_forall; intros a Ha; apply Hf, Hsub, Ha).
+  assert (Ht1 : tab_ok (g_epoch s1) (SQof s1) tab) by (unfold SQof; rewrite E1, E2; exact Ht).
+  rewrite <- E1 in Hm0, Hp1.
+  destruct (pp_get (t, p) (g_pps s1)) as [x|] eqn:Ex.
+  - pose proof (pp_get_in _ _ _ Ex) as Hinx.
+    assert (Hsubx : forall a, In a (pp_msgs (pr_st x)) -> In a (flat s1)).
+    { intros a Ha. apply in_flat. right; left. apply in_flat_map. exists ((t, p), x). split; assumption. }
+    destruct (run_pp_tab c s1 t p x m0 ls tab Hi Hp1 Hf1 Hm0 Hc0 (po_pp _ _ Hp1 _ _ Hinx) (forall_sub _ _ _ Hsubx Hf1) Ht1 Epr) as [tab' [I1 [I2 I3]]]; [rewrite E1; exact He | exact Huq|].
+    exists tab'. split; [exact I1 | split; assumption].
+  - destruct (next_lres ls) as [l0 ls'].
+    assert (T1 : transfers_pp (PE (g_epoch s1)) c (g_epoch s1) (fun k => seq_get k (g_seqs s1))) by (apply (t_pp _ _ _ _ _ (transfers_PE (g_epoch s1) c _ Hi)); exact I).
+    destruct (pp_init_okP (PE (g_epoch s1)) c _ _ T1 t p l0) as [Q0 Q1].
+    pose proof (pp_init_txn c (WPp (t, p)) (set_pps s1 (pp_set (t, p) (mkPpr (fst (pp_init c t p l0)) None) (g_pps s1))) t p l0) as [X1 X2].
+    pose proof (ppsh_pp_init c t p l0) as Sh0.
+    assert (Mk : forall a, In a (sent_cur (snd (pp_init c t p l0))) -> is_data a = false).
+    { destruct l0; cbn [pp_init snd]; [|intros a []]. unfold leader_effects, syn_of. cbn [sent_cur flat_map app]. intros a [<-|[]]. reflexivity. }
+    destruct (pp_init c t p l0) as [st0 effs0]. cbn [fst snd] in *.
+    set (s2 := set_pps s1 (pp_set (t, p) (mkPpr st0 None) (g_pps s1))) in *.
+    assert (H2 : places_ok (PE (g_epoch s1)) s2).
+    { destruct Hp1 as [A1 A2 A3 A4]. constructor; cbn [s2 set_pps g_q g_pps g_bps g_rbs]; try assumption.
+      intros k' x' Hin. apply in_pp_set in Hin as [[-> ->]|Hin]; [cbn [pr_st]; rewrite Q1; constructor | eapply A2, Hin]. }
+    assert (F2 : forall a, In a (flat s2) -> In a (flat s1)).
+    { intros a Ha. apply in_flat in Ha. apply in_flat. unfold fq, fp, fb, fr in *. cbn [s2 set_pps g_q g_pps g_bps g_rbs] in Ha.
+      destruct Ha as [Ha|[Ha|Ha]]; [left; exact Ha | | right; right; exact Ha].
+      apply in_fp_set in Ha as [Ha|Ha]; [cbn [pr_st] in Ha; rewrite Q1 in Ha; contradiction | right; left; exact Ha]. }
+    pose proof (apply_effs_places (PE (g_epoch s1)) c (WPp (t, p)) effs0 s2 H2 Q0) as H3.
+    set (s3 := apply_effs c (WPp (t, p)) s2 effs0) in *.
+    assert (E3 : g_epoch s3 = g_epoch s1) by exact X1. assert (E3' : g_seqs s3 = g_seqs s1) by exact X2.
+    assert (Hf3 : Forall (core tab) (flat s3)).
+    { rewrite Forall_forall. intros a Ha. destruct (in_flat_effs a c (WPp (t, p)) effs0 s2 Ha) as [G|G].
+      - rewrite Forall_forall in Hf1. apply Hf1, F2, G.
+      - rewrite (ppsh_msgs _ Sh0) in G. intros Hd. rewrite (Mk a G) in Hd. discriminate. }
+    rewrite <- E3 in Hm0, H3.
+    assert (Ht3 : tab_ok (g_epoch s3) (SQof s3) tab) by (unfold SQof; rewrite E3, E3'; exact Ht1).
+    match goal with |- context [run_pp c s3 (t, p) ?xx m0 ls'] => set (x' := xx) in * end.
+    assert (Hx' : Forall (upk (g_epoch s3) (t, p)) (pp_msgs (pr_st x')) /\ Forall (core tab) (pp_msgs (pr_st x'))).
+    { subst x'. destruct (pp_get (t, p) (g_pps s3)) as [x|] eqn:Ex3.
+      - pose proof (pp_get_in _ _ _ Ex3) as Hinx. split; [apply (po_pp _ _ H3 _ _ Hinx)|].
+        eapply forall_sub; [|exact Hf3]. intros a Ha. apply in_flat. right; left. apply in_flat_map. exists ((t, p), x). split; assumption.
+      - cbn [pr_st]. rewrite Q1. split; constructor. }
+    destruct Hx' as [Hx1 Hx2].
+    destruct (run_pp_tab c s3 t p x' m0 ls' tab Hi H3 Hf3 Hm0 Hc0 Hx1 Hx2 Ht3 Epr) as [tab' [I1 [I2 I3]]]; [rewrite E3, E1; exact He | exact Huq|].
+    exists tab'. split; [exact I1 | split; assumption].
+Qed.
